@@ -21,7 +21,7 @@ from lib import common as C
 
 ID = "C14"
 PROP_MODULES = ["GPVerif.Props.C14"]
-BUILD_TARGETS = ["GPVerif.Props.C14", "GPVerif.Model.Variational", "GPVerif.Model.Proto"]
+BUILD_TARGETS = ["GPVerif.Props.C14", "GPVerif.Model.Variational", "GPVerif.Gen.VariationalAlgebra", "GPVerif.Model.Proto"]
 RULE = ("strategy x variational-distribution class x batch pattern (inducing points / parameters / data / kernel "
         "hyper-parameters) x kernel family x mean x jitter (default, 1e-10) x mode (eval: mean+full covariance+KL, "
         "train: mean+variances+KL); every batch element is one case, compared against the exact closed form; "
@@ -37,9 +37,22 @@ ASSUMPTIONS = ["linear_operator primitives (psd_safe_cholesky, triangular solve,
 EXHAUSTIVE = False
 
 sys.set_int_max_str_digits(0)   # exact rationals of a few thousand digits travel between harness and driver
+GEN = os.path.join(C.LEAN_DIR, "GPVerif", "Gen", "VariationalAlgebra.lean")
 PREC = 240           # bits kept when an irrational primitive is rounded to a rational
 COND_MAX = 1e7
 _state = {}
+
+
+def generate(ctx):
+    """Translator G7: regenerate Gen/VariationalAlgebra.lean (matrix algebra of the whitened / unwhitened strategies and
+    the KL call) from $VERIF_REPO; out-of-vocabulary source raises (broken tie)."""
+    sys.path.insert(0, os.path.join(C.VERIF, "harness"))
+    from translate import g7_variational_algebra as g7
+    t, changed = g7.generate(C.REPO, GEN)
+    ctx.notes["gen_changed"] = changed
+    ctx.notes["gen_unwhitened_prior_jitter"] = str(t["uPriorJitter"])
+    ctx.notes["gen_unwhitened_forward_jitter"] = str(t["uForwardJitter"])
+    ctx.notes["gen_kl_args"] = t["klArgs"]
 
 
 # ------------------------------------------------------------------ exact helpers
@@ -195,6 +208,21 @@ class Driver:
 
 class DriverFail(Exception):
     pass
+
+
+def open_driver(ctx):
+    """The C14 driver evaluates the code path through the GENERATED definitions; when those no longer compile the
+    hand-written fallback driver keeps the closed-form oracle available for the failing-input search."""
+    drv = Driver("C14")
+    try:
+        drv.ask("DM 1 1 1 2")
+        return drv
+    except Exception as e:
+        drv.close()
+        ctx.broke("correspondence", "generated-driver-does-not-run", str(e)[-800:])
+        drv = Driver("C14spec")
+        drv.ask("DM 1 1 1 2")
+        return drv
 
 
 def sc(m):
@@ -389,29 +417,10 @@ class Cmp:
         return not self.bad
 
 
-def unwhitened_prior_eps(vs):
-    """Jitter that `UnwhitenedVariationalStrategy.prior_distribution` (the eval-mode / uncached prior) adds to Kzz,
-    read from the source: `add_jitter()` -> linear_operator's default, `add_jitter(self.jitter_val)` -> jitter_val."""
-    if "unwh_eps" not in _state:
-        src = open(os.path.join(C.REPO, "gpytorch/variational/unwhitened_variational_strategy.py")).read()
-        found = None
-        for node in ast.walk(ast.parse(src)):
-            if isinstance(node, ast.FunctionDef) and node.name == "prior_distribution":
-                for c in ast.walk(node):
-                    if isinstance(c, ast.Call) and isinstance(c.func, ast.Attribute) and c.func.attr == "add_jitter":
-                        if not c.args and not c.keywords:
-                            import inspect
-                            from linear_operator.operators import LinearOperator
-                            found = float(inspect.signature(LinearOperator.add_jitter).parameters["jitter_val"].default)
-                        elif len(c.args) == 1 and ast.unparse(c.args[0]) == "self.jitter_val":
-                            found = "jitter_val"
-                        elif len(c.args) == 1 and isinstance(c.args[0], ast.Constant):
-                            found = float(c.args[0].value)
-        if found is None:
-            raise RuntimeError("UnwhitenedVariationalStrategy.prior_distribution: add_jitter call not recognised")
-        _state["unwh_eps"] = found
-    f = _state["unwh_eps"]
-    return F(vs.jitter_val) if f == "jitter_val" else F(f)
+def add_jitter_default():
+    import inspect
+    from linear_operator.operators import LinearOperator
+    return F(float(inspect.signature(LinearOperator.add_jitter).parameters["jitter_val"].default))
 
 
 def report_kl(ctx, cmp_, what, real, klx, kl_code, known_key, other_key, desc, replay):
@@ -575,30 +584,15 @@ def run_basic(ctx, drv, cfg, rng, replay_only=None):
             train_var = [ccov[i][i] for i in range(n)]
             kl_train = klx
         else:
+            exu = exact_unwhitened(ctx, drv, desc, kzz, kzx, kxx, mx, mz, eps, eps, m, S, R, hasS)
             if cfg.get("x_eq_z"):
                 # `torch.equal(x, inducing_points)` shortcut: q(f) = q(u); this is the closed form at ε = 0
                 fmean, fcov = m, S
-                kt = add_jit(kzz, eps)
-                rep = drv.ask(f"U {Mi} {n} {len(R[0])} {toks(kzz)} {toks(kzx)} {toks(kxx)} {toks(mx)} {toks(mz)} "
-                              f"{C.rat_str(eps)} 0 {C.rat_str(eps)} {toks(m)} {toks(R)} {toks(S)} {hasS}")
                 train_var = [S[i][i] for i in range(n)]
             else:
-                rep = drv.ask(f"U {Mi} {n} {len(R[0])} {toks(kzz)} {toks(kzx)} {toks(kxx)} {toks(mx)} {toks(mz)} "
-                              f"{C.rat_str(eps)} 0 {C.rat_str(eps)} {toks(m)} {toks(R)} {toks(S)} {hasS}")
-                cmean, ccov, fmean, fcov = rep[0], rep[1], rep[2], rep[3]
-                model_gap = max(max(abs(a - b) for ra, rb in zip(X, Y) for a, b in zip(ra, rb))
-                                for X, Y in ((cmean, fmean), (ccov, fcov)))
-                if float(model_gap) > 1e-40:
-                    ctx.broke("correspondence", "model-codepath-vs-closedform", f"{desc}: gap {float(model_gap)}")
-                train_var = [v[0] for v in rep[5]]
-            klr, detS, detP, quad = rep[6], rep[7], rep[8], rep[9]
-            if hasS:
-                klx = kl_mvn(sc(klr), sc(detS), sc(detP))
-            else:
-                klx = kl_delta(sc(quad), sc(detP), Mi)
-            kl_train = klx
-            eps_code = unwhitened_prior_eps(vs)
-            kl_code = kl_against(drv, kzz, eps_code, m, mz, S, hasS) if eps_code != eps else None
+                fmean, fcov, train_var = exu["mean"], exu["cov"], exu["trainvar"]
+            klx = kl_train = exu["kl"]
+            kl_code = exu["kl_code"]
         kscale = max([1.0] + [abs(float(v)) for row in kxx for v in row])
         # ---- eval mode
         mean, cov, _, kl, kl_before = results["eval"]
@@ -668,15 +662,24 @@ def kl_against(drv, kzz, epsp, m, mz, S, hasS):
 
 
 def exact_unwhitened(ctx, drv, desc, kzz, kzx, kxx, mx, mz, eps, epsp, m, S, R, hasS):
+    """Closed form for the unwhitened strategy.  `kl` = KL against the matrix the predictive uses (prior jitter epsp);
+    `kl_code` = KL against the prior the GENERATED `uPriorCov` describes (None when it coincides)."""
     Mi, n = len(m), len(mx)
+    L = hp_chol(add_jit(kzz, eps))
     rep = drv.ask(f"U {Mi} {n} {len(R[0])} {toks(kzz)} {toks(kzx)} {toks(kxx)} {toks(mx)} {toks(mz)} "
-                  f"{C.rat_str(eps)} 0 {C.rat_str(epsp)} {toks(m)} {toks(R)} {toks(S)} {hasS}")
+                  f"{C.rat_str(eps)} 0 {C.rat_str(epsp)} {toks(m)} {toks(R)} {toks(S)} {hasS} {toks(L)} "
+                  f"{C.rat_str(add_jitter_default())}")
     cmean, ccov, fmean, fcov = rep[0], rep[1], rep[2], rep[3]
-    if float(max_gap(((cmean, fmean), (ccov, fcov)))) > 1e-40:
-        ctx.broke("correspondence", "model-codepath-vs-closedform", f"{desc}")
+    if float(max_gap(((cmean, fmean), (ccov, fcov)))) > 1e-40 or float(sc(rep[13])) > 1e-60:
+        ctx.broke("correspondence", "model-codepath-vs-closedform",
+                  f"{desc}: generated unwhitened code path vs closed form gap {float(max_gap(((cmean, fmean), (ccov, fcov))))}, "
+                  f"|L L^T - cholesky argument| {float(sc(rep[13]))}")
     klr, detS, detP, quad = rep[6], rep[7], rep[8], rep[9]
     kl = kl_mvn(sc(klr), sc(detS), sc(detP)) if hasS else kl_delta(sc(quad), sc(detP), Mi)
-    return {"mean": fmean, "cov": fcov, "kl": kl, "trainvar": [v[0] for v in rep[5]]}
+    kl_code = None
+    if sc(rep[14]) != 0:       # generated prior jitter differs from the generated forward jitter
+        kl_code = kl_mvn(sc(rep[10]), sc(detS), sc(rep[11])) if hasS else kl_delta(sc(rep[12]), sc(rep[11]), Mi)
+    return {"mean": fmean, "cov": fcov, "kl": kl, "kl_code": kl_code, "trainvar": [v[0] for v in rep[5]]}
 
 
 def kappa_of(kzz, eps):
@@ -918,11 +921,8 @@ def run_orth(ctx, drv, cfg, rng, replay_only=None):
             fmean, fcov, extra = drv.ask(f"O {n} {Mm} {toks(mux)} {toks(Cxx)} {toks(Cxz)} {toks(Czz)} {C.rat_str(eo)} {toks(mm)}")
             klx = exb["kl"] + float(sc(extra)) / 2
             kl_code = None
-            if not whitened and mode == "eval":
-                ec = unwhitened_prior_eps(base)
-                if ec != eps_b:
-                    kl_code = kl_against(drv, kzz, ec, m, mz, S, hasS) \
-                        + float(sc(extra)) / 2
+            if not whitened and mode == "eval" and exb.get("kl_code") is not None:
+                kl_code = exb["kl_code"] + float(sc(extra)) / 2
             mean, cov, var, kl = res[mode]
             if mode == "train" and not whitened:
                 # training-mode covariance of the unwhitened base has only its diagonal right (by design of that
@@ -1133,8 +1133,7 @@ def run_multitask(ctx, drv, cfg, rng, replay_only=None):
         Cs.append(ex["cov"])
         kls.append(ex["kl"])
         if not whitened:
-            ec = unwhitened_prior_eps(base)
-            kls_code.append(kl_against(drv, kzz, ec, m, mz, S, hasS) if ec != eps_b else ex["kl"])
+            kls_code.append(ex["kl_code"] if ex["kl_code"] is not None else ex["kl"])
     if kind == "lmc":
         A = fmat(vs.lmc_coefficients.detach())
         eps_l = F(vs.jitter_val)
@@ -1275,8 +1274,7 @@ def run_multitask_batched(ctx, drv, cfg, rng, replay_only=None):
                 ex = exact_whitened(ctx, drv, desc, kzz, kzx, kxx, mx, eps_b, eps_b, m, S, hasS)
             else:
                 ex = exact_unwhitened(ctx, drv, desc, kzz, kzx, kxx, mx, mz, eps_b, eps_b, m, S, R, hasS)
-                ec = unwhitened_prior_eps(base)
-                kls_code.append(kl_against(drv, kzz, ec, m, mz, S, hasS) if ec != eps_b else ex["kl"])
+                kls_code.append(ex["kl_code"] if ex["kl_code"] is not None else ex["kl"])
             mus.append(ex["mean"])
             Cs.append(ex["cov"])
             kls.append(ex["kl"])
@@ -1435,7 +1433,7 @@ def correspondence(ctx):
     import warnings
     torch.set_num_threads(2)
     warnings.simplefilter("ignore")
-    drv = Driver("C14")
+    drv = open_driver(ctx)
     try:
         jobs = [("basic", cfg) for cfg in basic_configs(ctx)] + extra_configs(ctx)
         for i, (runner, cfg) in enumerate(jobs):
@@ -1454,7 +1452,7 @@ def replay(ctx, payload):
     torch.set_num_threads(2)
     warnings.simplefilter("ignore")
     case = payload["case"]
-    drv = Driver("C14")
+    drv = open_driver(ctx)
     try:
         # the rng stream is a function of (seed, label): re-derive it from the recorded seed
         os.environ["VERIF_SEED"] = str(payload.get("seed", 0))
